@@ -92,7 +92,15 @@ class Builder:
                 subs.append(s["where"])
                 depth = max(depth, 1 + s["depth"])
                 alts = max(alts, s["alts"])
-        return " ".join(parts), self.M.WhereAndFilter(or_filters=subs, **fields), depth, alts
+        text, af = " ".join(parts), self.M.WhereAndFilter(or_filters=subs, **fields)
+        if self.in_saved and rng.random() < 0.3:
+            # a saved clause written as an explicit group "( ... )": the same notes, but a different text to splice
+            # ("(a) | (b)" starts with "(" and ends with ")" without being ONE group)
+            empty = {k: set() for k in fields}
+            inner = self.M.WhereOrFilter([af])
+            PAREN_IDS.add(id(inner))
+            text, af = "(" + text + ")", self.M.WhereAndFilter(or_filters=[inner], **empty)
+        return text, af, depth, alts
 
     def or_filter(self, candidates: list, saved: dict, max_refs: int):
         rng = self.rng
@@ -109,6 +117,9 @@ class Builder:
         return text, where, max(g[2] for g in groups), max([n] + [g[3] for g in groups]), sum(g[0].count("{") for g in groups)
 
 
+PAREN_IDS: set = set()  # ids of the WhereOrFilter objects that stand for a written "( ... )" group of the current set
+
+
 def pooling_trigger(where) -> bool:
     """True iff the textual splice of a single-alternative saved clause puts its kind
     (or priority) atoms into one and-group with other kind (or priority) atoms, where
@@ -120,7 +131,7 @@ def pooling_trigger(where) -> bool:
         trig = False
         for sub in af.or_filters:
             ands = list(sub.and_filters)
-            if len(ands) == 1:
+            if len(ands) == 1 and id(sub) not in PAREN_IDS:  # (a written group keeps its atoms to itself)
                 k, p, t = flat(ands[0])
                 kinds, prios, trig = kinds + k, prios + p, trig or t
             else:
@@ -134,6 +145,7 @@ def pooling_trigger(where) -> bool:
 
 def gen_set(rng, pools, saved_may_pool=True):
     """A set of saved queries in topological order (q_i may mention q_j, j > i built first)."""
+    PAREN_IDS.clear()
     b = Builder(rng, pools, saved_may_pool)
     b.in_saved = True
     names = rng.sample(NAMES, rng.randint(1, 6))
